@@ -6,6 +6,7 @@ package eng
 
 import (
 	"fmt"
+	"os"
 	"go/token"
 	"go/types"
 	"strings"
@@ -216,6 +217,43 @@ func AnalyzeStrideAll(fns []*ssa.Function) map[*ssa.Function]*StrideInfo {
 		inSet[f] = true
 	}
 	pv := map[*ssa.Parameter]SV{}
+	// callbacks: a function literal (or named function) handed to a function-typed parameter of a function of the set
+	for _, f := range fns {
+		for _, b := range f.Blocks {
+			for _, in := range b.Instrs {
+				c, ok := in.(ssa.CallInstruction)
+				if !ok {
+					continue
+				}
+				callee := c.Common().StaticCallee()
+				if callee == nil || !inSet[callee] {
+					continue
+				}
+				for i, a := range c.Common().Args {
+					if i >= len(callee.Params) {
+						break
+					}
+					var target *ssa.Function
+					switch x := a.(type) {
+					case *ssa.MakeClosure:
+						target, _ = x.Fn.(*ssa.Function)
+					case *ssa.Function:
+						target = x
+					}
+					if target == nil || !inSet[target] {
+						continue
+					}
+					dup := false
+					for _, t := range cbBind[callee.Params[i]] {
+						dup = dup || t == target
+					}
+					if !dup {
+						cbBind[callee.Params[i]] = append(cbBind[callee.Params[i]], target)
+					}
+				}
+			}
+		}
+	}
 	var res map[*ssa.Function]*StrideInfo
 	for round := 0; round < 5; round++ {
 		res = map[*ssa.Function]*StrideInfo{}
@@ -364,6 +402,20 @@ func resolveCell(addr ssa.Value) *ssa.Alloc {
 }
 
 var cellVals = map[*ssa.Alloc]SV{}
+
+// cbBind: the functions bound to a function-typed parameter at the call sites of the functions analysed together.
+var cbBind = map[*ssa.Parameter][]*ssa.Function{}
+
+// CallbackTargets returns the functions a call through a function-typed parameter may reach (nil for other calls).
+func CallbackTargets(c ssa.CallInstruction) []*ssa.Function {
+	if c.Common().IsInvoke() {
+		return nil
+	}
+	if prm, ok := c.Common().Value.(*ssa.Parameter); ok {
+		return cbBind[prm]
+	}
+	return nil
+}
 
 // retVals: abstract value of the single int result of the functions analysed together.
 var retVals = map[*ssa.Function]SV{}
@@ -667,6 +719,14 @@ func analyzeStride(fn *ssa.Function, pv map[*ssa.Parameter]SV) *StrideInfo {
 			case ssa.CallInstruction:
 				callee := x.Common().StaticCallee()
 				if callee == nil {
+					// a call of a callback parameter binds the parameters of the functions handed in for it
+					for _, target := range CallbackTargets(x) {
+						for i, prm := range target.Params {
+							if i < len(x.Common().Args) && isIntT(prm.Type()) {
+								si.AllIntArgs = append(si.AllIntArgs, StrideCallArg{x, target, prm.Name(), prm, valOf(x.Common().Args[i])})
+							}
+						}
+					}
 					continue
 				}
 				args := x.Common().Args
@@ -686,6 +746,20 @@ func analyzeStride(fn *ssa.Function, pv map[*ssa.Parameter]SV) *StrideInfo {
 		for _, prm := range fn.Params {
 			if isStride(prm) {
 				si.Strides++
+			}
+		}
+	}
+	if d := os.Getenv("VERIF_STRIDE_DBG"); d != "" && strings.Contains(fn.String(), d) {
+		fmt.Fprintln(os.Stderr, "STRIDE", fn.String())
+		for v, sv := range si.Val {
+			fmt.Fprintf(os.Stderr, "   %s = %s : %s\n", v.Name(), v.String(), sv)
+		}
+		for _, a := range si.AllIntArgs {
+			fmt.Fprintf(os.Stderr, "   arg %s.%s <- %s\n", a.Callee.String(), a.P.Name(), a.Val)
+		}
+		for prm, v := range pv {
+			if prm.Parent() == fn {
+				fmt.Fprintf(os.Stderr, "   pv %s = %s\n", prm.Name(), v)
 			}
 		}
 	}
